@@ -267,6 +267,34 @@ def run(ctx, name, kind, **kw):
                                                   dict(curve=cname, point=cand, enc=enc, how=how))
                                 except MalformedPointError:
                                     pass
+        # curve agreement is about the whole domain: a user-defined Curve on the same field curve with ANOTHER base point
+        # (same order) is a different curve; mixing its keys with the named curve's must be refused
+        from ecdsa import curves as _c
+        for cname in kw["cnames"][:3]:
+            c = lib.BY_NAME[cname]
+            dom = lib.dom_of(c)
+            G2 = dom.curve.mul(rng.randrange(2, dom.n), dom.G)
+            custom = _c.Curve(cname + "_altG", c.curve, PointJacobi(c.curve, G2[0], G2[1], 1, dom.n, generator=True), (1, 3, 132, 0, 250))
+            skN = ecdsa.SigningKey.from_secret_exponent(rng.randrange(1, dom.n), c)
+            skC = ecdsa.SigningKey.from_secret_exponent(rng.randrange(1, dom.n), custom)
+            for what, make in (("ctor named+custom_pub", lambda: ECDH(c, skN, skC.verifying_key)), ("ctor custom+named_pub", lambda: ECDH(custom, skC, skN.verifying_key)),
+                               ("ctor named curve, custom keys", lambda: ECDH(c, skC, skC.verifying_key)),
+                               ("load custom pub into named", lambda: (lambda e: (e.load_private_key(skN), e.load_received_public_key(skC.verifying_key), e)[2])(ECDH(c))),
+                               ("set_curve(custom) after named keys", lambda: (lambda e: (e.set_curve(custom), e)[1])(ECDH(c, skN, skN.verifying_key)))):
+                ctx.case("refuse.curve_mismatch", key="%s|custom_generator|%s" % (cname, what))
+                try:
+                    e = make()
+                    got = e.generate_sharedsecret()
+                    ctx.violation("refusal_missing:InvalidCurveError", "%s: %s: keys of the named curve and of a custom curve with another base point were mixed, secret %x returned" % (cname, what, got),
+                                  dict(curve=cname, what=what))
+                except InvalidCurveError:
+                    pass
+                except Exception as ex:
+                    ctx.violation("wrong_refusal:InvalidCurveError", "%s: %s: raised %s" % (cname, what, type(ex).__name__), dict(curve=cname, what=what))
+            # and the custom curve alone works like any curve
+            skC2 = ecdsa.SigningKey.from_secret_exponent(rng.randrange(1, dom.n), custom)
+            want = dom.curve.mul(int(skC.privkey.secret_multiplier) * int(skC2.privkey.secret_multiplier) % dom.n, G2)[0]
+            secret_of(ctx, ECDH(custom, skC, skC2.verifying_key), want, "exchange", "%s|custom_generator" % cname, "%s custom base point exchange" % cname, custom)
     elif kind == "history":
         names = [c.name for c in lib.ALL_CURVES if c.order.bit_length() <= 256]
         for it in range(kw["count"]):
